@@ -1020,3 +1020,180 @@ Theorem marker_before_flush_refuted :
   recover_cat true (apply (firstn 12 ops) empty_fs) = Ok [(0, [0; 1; 2]); (1, [3])] /\
   recover_cat true (apply (firstn 13 ops) empty_fs) = Err.
 Proof. vm_compute. repeat split. Qed.
+
+(* ------------------------------------------------------------------ deaths by unwinding *)
+Lemma content_beq_eq a b : content_beq a b = true -> a = b.
+Proof.
+  destruct a, b; simpl; try discriminate; try reflexivity.
+  - intro H. apply andb_true_iff in H. destruct H as [H1 H2]. apply Bool.eqb_prop in H1. apply nlist_eqb_eq in H2. congruence.
+  - intro H. apply Bool.eqb_prop in H. congruence.
+  - destruct b0, b; simpl; try discriminate; try reflexivity. intro H. apply Nat.eqb_eq in H. congruence.
+  - destruct t, t0; simpl; try discriminate; try reflexivity. intro H. apply Nat.eqb_eq in H. congruence.
+  - intro H. apply nlist_eqb_eq in H. congruence.
+  - destruct v, v0; simpl; try discriminate; try reflexivity. intro H. apply Nat.eqb_eq in H. congruence.
+  - intro H. apply nlist_eqb_eq in H. congruence.
+Qed.
+
+Lemma ocontent_beq_eq a b : ocontent_beq a b = true -> a = b.
+Proof. destruct a, b; simpl; try discriminate; [|reflexivity]. intro H. apply content_beq_eq in H. congruence. Qed.
+
+Lemma In_mem_path p l : In p l -> mem_path p l = true.
+Proof.
+  induction l as [|q l IH]; simpl; [tauto|]. intros [->|H].
+  - rewrite path_beq_refl. reflexivity.
+  - rewrite (IH H). apply orb_true_r.
+Qed.
+
+Lemma fs_of_none l q : ~ In q (map fst l) -> fs_of l q = None.
+Proof.
+  induction l as [|[p c] l IH]; simpl; [reflexivity|]. intro H.
+  destruct (path_beq q p) eqn:E.
+  - apply path_beq_eq in E. subst. exfalso. apply H. left. reflexivity.
+  - apply IH. intro Hin. apply H. right. exact Hin.
+Qed.
+
+Lemma apply_none ops s q : s q = None -> ~ In q (map op_path ops) -> apply ops s q = None.
+Proof.
+  intros H0 Hn. rewrite apply_untouched; [exact H0|].
+  apply Forall_forall. intros o Ho E. apply Hn. rewrite <- E. apply in_map. exact Ho.
+Qed.
+
+Lemma fs_eq_on_all u s1 s2 :
+  fs_eq_on u s1 s2 = true -> (forall q, ~ In q u -> s1 q = None /\ s2 q = None) -> forall q, s1 q = s2 q.
+Proof.
+  intros H Hout q. destruct (mem_path q u) eqn:E.
+  - apply mem_path_In in E. unfold fs_eq_on in H. rewrite forallb_forall in H. apply ocontent_beq_eq. apply H. exact E.
+  - assert (Hn : ~ In q u) by (intro Hin; apply In_mem_path in Hin; congruence).
+    destruct (Hout q Hn) as [-> ->]. reflexivity.
+Qed.
+
+(* the decision procedure is sound: the state equals the crash state after some k operations, at EVERY path *)
+Lemma prefix_state_spec l0 ops l :
+  prefix_state_b l0 ops l = true -> exists k, forall q, fs_of l q = apply (firstn k ops) (fs_of l0) q.
+Proof.
+  unfold prefix_state_b. intro H. apply existsb_exists in H. destruct H as [k [_ Hk]]. exists k.
+  intro q. symmetry. revert q. apply (fs_eq_on_all _ _ _ Hk).
+  intros q Hn. unfold universe in Hn. rewrite !in_app_iff in Hn. split.
+  - apply apply_none.
+    + apply fs_of_none. tauto.
+    + intro Hin. apply Hn. right. left. rewrite in_map_iff in Hin. destruct Hin as [o [Eo Ho]].
+      rewrite in_map_iff. exists o. split; [exact Eo|]. apply (firstn_In k ops o Ho).
+  - apply fs_of_none. tauto.
+Qed.
+
+Lemma measure_ext s s' ids b : (forall q, s q = s' q) -> measure s ids b = measure s' ids b.
+Proof.
+  intro H. unfold measure.
+  assert (E : map (fun i => use_trees s i b) ids = map (fun i => use_trees s' i b) ids).
+  { apply map_ext. intro i. apply use_trees_ext; apply H. }
+  rewrite E. reflexivity.
+Qed.
+
+Lemma w_class_at_ext fixed w s s' req : (forall q, s q = s' q) -> w_class_at fixed w s req = w_class_at fixed w s' req.
+Proof.
+  intro H. destruct w; unfold w_class_at;
+    try (rewrite (recover_cat_ext fixed s s' H); reflexivity).
+  - rewrite (measure_ext s s' _ req H). reflexivity.
+  - unfold recover_single. rewrite H. reflexivity.
+  - unfold recover_triple. rewrite !H. reflexivity.
+  - unfold recover_product. rewrite (read_all_ext nr s s'); [reflexivity|]. intros p _. apply H.
+Qed.
+
+Lemma w_s0_list w : w_s0 w = fs_of (w_s0l w).
+Proof. destruct w; reflexivity. Qed.
+
+Lemma w_class_at_prefix fixed w k req :
+  w_class fixed w k req = w_class_at fixed w (apply (firstn k (w_ops fixed w)) (w_s0 w)) req.
+Proof. destruct w; reflexivity. Qed.
+
+(* a death by unwinding that leaves a state some crash point leaves is classified like that crash point *)
+Theorem unwound_as_crash fixed w l req :
+  prefix_state_b (w_s0l w) (w_ops fixed w) l = true ->
+  exists k, w_class_at fixed w (fs_of l) req = w_class fixed w k req.
+Proof.
+  intro H. destruct (prefix_state_spec _ _ _ H) as [k Hk]. exists k.
+  rewrite w_class_at_prefix, w_s0_list. apply w_class_at_ext. exact Hk.
+Qed.
+
+(* ... so for the creation of a catalog it recovers as an error or as the complete new catalog *)
+Theorem unwound_create_safe ps l :
+  prefix_state_b [] (ops_create ps) l = true ->
+  In (recover_cat true (fs_of l)) [Err; recover_cat true (apply (ops_create ps) empty_fs)].
+Proof.
+  intro H. destruct (prefix_state_spec _ _ _ H) as [k Hk].
+  rewrite (recover_cat_ext true (fs_of l) _ Hk). apply (crash_safe_create ps empty_fs k). reflexivity.
+Qed.
+
+Theorem unwound_overwrite_safe l0 order ps l :
+  wf_cat (fs_of l0) -> valid_order_b l0 order = true ->
+  prefix_state_b l0 (ops_overwrite order ps) l = true ->
+  In (recover_cat true (fs_of l)) [Err; recover_cat true (fs_of l0); recover_cat true (apply (ops_overwrite order ps) (fs_of l0))].
+Proof.
+  intros Hwf Hval H. destruct (prefix_state_spec _ _ _ H) as [k Hk].
+  rewrite (recover_cat_ext true (fs_of l) _ Hk). apply (crash_safe_overwrite l0 order ps k Hwf Hval).
+Qed.
+
+(* the abort path of the creation: the operations issued are a prefix of those of the uninterrupted run *)
+Lemma ops_pieces_firstn : forall ps acc j, exists k,
+  fst (ops_pieces acc (firstn j ps)) = firstn k (fst (ops_pieces acc ps)).
+Proof.
+  induction ps as [|[p rs] ps IH]; intros acc j.
+  - exists 0. destruct j; reflexivity.
+  - destruct j as [|j]; [exists 0; reflexivity|]. simpl.
+    destruct (acc_get acc p) as [old|].
+    + destruct (IH (acc_set acc p (old ++ rs)) j) as [k Hk]. exists (S k).
+      destruct (ops_pieces (acc_set acc p (old ++ rs)) (firstn j ps)), (ops_pieces (acc_set acc p (old ++ rs)) ps).
+      simpl in *. rewrite Hk. reflexivity.
+    + destruct (IH (acc_set acc p rs) j) as [k Hk]. exists (4 + k).
+      destruct (ops_pieces (acc_set acc p rs) (firstn j ps)), (ops_pieces (acc_set acc p rs) ps).
+      simpl in *. rewrite Hk. reflexivity.
+Qed.
+
+Lemma firstn_firstn_app {A} k (l1 l2 : list A) : firstn k l1 = firstn (min k (length l1)) (l1 ++ l2).
+Proof.
+  rewrite firstn_app. replace (min k (length l1) - length l1) with 0 by lia. simpl. rewrite app_nil_r.
+  destruct (Nat.le_ge_cases k (length l1)).
+  - rewrite Nat.min_l by assumption. reflexivity.
+  - rewrite Nat.min_r by assumption. rewrite !firstn_all2; auto.
+Qed.
+
+Theorem unwound_create_prefix j ps : exists k, ops_create_unwound false j ps = firstn k (ops_create ps).
+Proof.
+  unfold ops_create_unwound, ops_create, ops_create_body. rewrite app_nil_r.
+  destruct (ops_pieces_firstn ps [] j) as [k Hk]. rewrite Hk.
+  exists (min (S k) (length (Put PRoot Dir :: fst (ops_pieces [] ps)))).
+  rewrite <- firstn_firstn_app. reflexivity.
+Qed.
+
+(* directly: without the code of the regular end no patch_ids.bin appears, the next use is an error *)
+Theorem unwound_create_err strict j ps s0 :
+  s0 PIds = None -> recover_cat strict (apply (ops_create_unwound false j ps) s0) = Err.
+Proof.
+  intro H0. apply recover_no_ids. unfold ops_create_unwound. rewrite app_nil_r.
+  rewrite apply_untouched; [exact H0|apply create_body_touch].
+Qed.
+
+Theorem unwound_overwrite_err strict l order j ps :
+  wf_cat (fs_of l) -> valid_order_b l order = true ->
+  recover_cat strict (apply (ops_overwrite_unwound false order j ps) (fs_of l)) = Err.
+Proof.
+  intros Hwf Hval. unfold ops_overwrite_unwound. rewrite apply_app. apply unwound_create_err.
+  apply del_gone. destruct (wf_cat_inv _ Hwf) as [r [ids [_ [Hi _]]]].
+  apply fs_of_in in Hi. unfold valid_order_b in Hval. apply andb_true_iff in Hval. destruct Hval as [Hc _].
+  unfold covers in Hc. rewrite forallb_forall in Hc. apply mem_path_In. apply (Hc _ Hi).
+Qed.
+
+(* the regular end on the abort path: interrupted after 2 of 3 pieces the directory opens without an error, with a
+   part of the records; no crash point of the uninterrupted run leaves that state *)
+Definition s_unwound_fin : list (path * content) :=
+  [(PRoot, Dir); (PDir 0, Dir); (PData 0, DataF true [0; 1]); (PDir 1, Dir); (PData 1, DataF true [2]); (PIds, IdsF [0; 1])].
+Theorem finalize_on_abort_refuted :
+  (forall q, apply (ops_create_unwound true 2 ps_demo) empty_fs q = fs_of s_unwound_fin q) /\
+  recover_cat true (fs_of s_unwound_fin) = Ok [(0, [0; 1]); (1, [2])] /\
+  recover_cat true (apply (ops_create ps_demo) empty_fs) = Ok [(0, [0; 1; 3]); (1, [2])] /\
+  prefix_state_b [] (ops_create ps_demo) s_unwound_fin = false /\
+  w_class_at true (WCreate ps_demo) (fs_of s_unwound_fin) 0 = 1.
+Proof.
+  split; [|vm_compute; repeat split].
+  intro q. destruct q as [| |[|[|i]]|[|[|i]]|i|i|i| | | | |n]; reflexivity.
+Qed.
